@@ -10,3 +10,5 @@ def run(ctx):
     engcommon.run_engine_property(ctx, 'C01', scan_accept=700, oracles=[('c01', None)], faults=0.3, extra_hists=extra, feat=dict(dyndep=0.25))
     # the history-level model (coq/Engine/HistDefs.v, theorems of Properties_C01hist.v) run against the real engine
     histmodel.hook(ctx, 'C01')
+    # ... and under the schedules of the engine's -j N runs (coq/Engine/HistParDefs.v, theorems of Properties_C01par.v)
+    histmodel.hook(ctx, 'C01', par=True, quick=300, thorough=3000, key='hist_model_parallel_schedules')
